@@ -42,6 +42,11 @@ CLAIMED = {
    note="Bounds: kernel <=3 markers (5 thorough), <=2 gametes; protocols <=2 crosses (3), nmating/nprogeny in {1,2}, nself<=1 (2), 2 markers; founders carry pairwise distinct codes. The kernel summary is justified by the kernel obligations of the same run.",
    technique="symbolic execution on z3-term arrays (symnp): term-identity provenance + z3 entailment of xoprob>0 per path; kernel summary (assume-guarantee) for the protocols; replay on real numpy",
    design="2/C01"),
+   "C02": dict(
+   text="Exact path-probability form instead of sampling: every feasible path of the real meiosis kernels (mat_meiosis/mat_dh/mat_mate, dense_*) is enumerated symbolically; z3 proves that each path condition is exactly the conjunction of literals u_ij<x_j / not(u_ij<x_j) over pairwise distinct uniform draws (one per gamete and marker), that paths are in bijection with crossover-indicator patterns and that the transmitted copy is the running parity; the path probabilities are therefore products of x_j/(1-x_j), and z3 discharges the polynomial identities: P(copy changes at j)=xoprob[j], P(a,b recombine)=(1-prod(1-2x))/2, independence of intervals and of gametes, one half at chromosome starts => every locus transmits either copy with probability one half and chromosomes assort independently. The Haldane composition law is proved from the source of mapfn (exp axiomatised). Counterexamples are replayed on the real kernel with scripted draws against a reference meiosis.",
+   note="Bounds: <=3 markers x <=2 gametes (quick), <=5 markers (thorough). The step from the proved per-gamete law to convergence of empirical proportions is the law of large numbers (mathematical, not solver-checked); uniformity/independence of the real generator is the stub contract.",
+   technique="symbolic path enumeration of the real kernel (symnp) + z3: path-condition equivalence, bijection, polynomial identities (QF_NRA); exp as uninterpreted function with axioms; replay with scripted draws",
+   design="2/C02"),
 }
 NA = {}
 for pid in props:
